@@ -543,13 +543,15 @@ pub fn run_history_opt(rng: &mut Rng, init: Init, nunits: usize, oneshot: bool, 
             hub.lock().unwrap().env.rsteps.push_back((step, d));
         };
         if end_kind == UnitEnd::Crashed { break; }      // the unit in flight is lost with the process
-        let (snap_after, jit) = {
+        let (snap_after, jit, sfail_obs) = {
             let h = hub.lock().unwrap();
-            if h.boundaries.len() > k { (h.boundaries[k].clone(), h.jit_log[k].clone()) } else { (h.snapshot(), h.jitters.clone()) }
+            if h.boundaries.len() > k { (h.boundaries[k].clone(), h.jit_log[k].clone(), h.sfail_log[k].clone()) } else { (h.snapshot(), h.jitters.clone(), h.sfail_obs.clone()) }
         };
         let apps_after = futures::executor::block_on(app_set.lock()).apps.clone();
         let waited = hub.lock().unwrap().trace[start..snap_after.trace_len].iter().any(|l| l.starts_with("M waitedreboot"));
         let mut env = env;
+        // the storage failures this unit's operations actually got, in the order of the operations
+        env.sfail = sfail_obs.into_iter().collect();
         if let Some(m) = hub.lock().unwrap().mock.as_mut() {
             // the replies the mock server gave are this unit's HTTP outcomes, as if they had been scripted
             env.uc.clear(); env.ev.clear(); env.pg.clear();
